@@ -117,7 +117,8 @@ PROPS = {
                        {"harness": "E2E", "corr": "corr.E2E14", "n": {"quick": 6, "thorough": 150}, "shard": 1},
                        {"harness": "INBAND", "corr": "corr.E2E14", "n": {"quick": 1, "thorough": 1}, "shard": 1}],
             "theorems": "props/C14.v", "rule": "x", "trusted_base": TB_COMMON},
-    "C10": {"stages": [{"harness": "FILEREC", "corr": "corr.C10", "n": {"quick": 1, "thorough": 1}, "shard": 40}],
+    "C10": {"stages": [{"harness": "FILEREC", "corr": "corr.C10", "n": {"quick": 1, "thorough": 1}, "shard": 40},
+                       {"harness": "RECHDR", "corr": "corr.C18lag", "n": {"quick": 12, "thorough": 200}, "shard": 50}],
             "theorems": "props/C10.v",
             "level_text": "Coq theorems on a file life-cycle model (every prefix of every well-formed call sequence; recovery) - partial: the kernel's file-system behaviour is outside the theorem "
                           "and is tied to the model by fault enumeration on the real recorder: SIGKILL injected by strace at every system call of scripted scenarios, the real start-up clean-up run afterwards, "
@@ -142,6 +143,7 @@ PROPS = {
     "C11": {"stages": [{"harness": "E2E", "corr": "corr.E2E11", "n": {"quick": 16, "thorough": 200}, "shard": 1},
                        {"harness": "E2ETHR", "corr": "corr.C18lag", "n": {"quick": 2, "thorough": 12}, "shard": 8},
                        {"harness": "RECHDR", "corr": "corr.C18lag", "n": {"quick": 12, "thorough": 200}, "shard": 50},
+                       {"harness": "TESTREC", "corr": "corr.C18lag", "n": {"quick": 2, "thorough": 12}, "shard": 8},
                        {"harness": "CODEC", "corr": "corr.C11codec", "n": {"quick": 300, "thorough": 10000}, "shard": 50},
                        {"harness": "CPTVHDR", "corr": "corr.C11hdr", "n": {"quick": 150, "thorough": 3000}, "shard": 30}],
             "theorems": "props/C11.v",
